@@ -826,6 +826,35 @@ fail_resp:
   return;
 }
 
+/*
+ * RFC8613 Appendix B.2: the kid context carries bstr .cbor (ID1 | R2 | R2 || R3).
+ * The whole field must be exactly that one (definite length) CBOR byte string,
+ * short enough for an ID Context built from it to fit the HKDF info buffer.
+ */
+static int
+b_2_unwrap_kid_context(const uint8_t *s, size_t length,
+                       coap_bin_const_t *kid_context) {
+  size_t hdr;
+  size_t len;
+
+  if (length < 1 || (s[0] >> 5) != 2)
+    return 0;
+  if ((s[0] & 0x1f) < 24) {
+    hdr = 1;
+    len = s[0] & 0x1f;
+  } else if ((s[0] & 0x1f) == 24 && length >= 2) {
+    hdr = 2;
+    len = s[1];
+  } else {
+    return 0;
+  }
+  if (hdr + len != length || len == 0 || len > 40)
+    return 0;
+  kid_context->s = s + hdr;
+  kid_context->length = len;
+  return 1;
+}
+
 /* pdu contains incoming message with encrypted COSE ciphertext payload
  * function returns decrypted message
  * and verifies signature, if present
@@ -976,6 +1005,7 @@ coap_oscore_decrypt_pdu(coap_session_t *session,
       if (cose->kid_context.length > 0) {
         const uint8_t *ptr;
         size_t length;
+        coap_bin_const_t kid_context;
         /* Appendix B.2 protocol check - Is the recipient key_id known */
         osc_ctx = oscore_find_context(session->context,
                                       cose->key_id,
@@ -985,13 +1015,10 @@ coap_oscore_decrypt_pdu(coap_session_t *session,
         ptr = cose->kid_context.s;
         length = cose->kid_context.length;
         if (ptr && osc_ctx && osc_ctx->rfc8613_b_2 &&
-            osc_ctx->mode == OSCORE_MODE_SINGLE) {
+            osc_ctx->mode == OSCORE_MODE_SINGLE &&
+            b_2_unwrap_kid_context(ptr, length, &kid_context)) {
           /* Processing Appendix B.2 protocol */
-          /* Need to CBOR unwrap kid_context */
-          coap_bin_const_t kid_context;
-
-          kid_context.length = oscore_cbor_get_element_size(&ptr, &length);
-          kid_context.s = ptr;
+          /* kid_context is now CBOR unwrapped */
           cose_encrypt0_set_kid_context(cose, (coap_bin_const_t *)&kid_context);
 
           if (session->oscore_r2 != 0) {
@@ -1093,8 +1120,13 @@ coap_oscore_decrypt_pdu(coap_session_t *session,
           /* Need to CBOR unwrap kid_context */
           coap_bin_const_t kid_context;
 
-          kid_context.length = oscore_cbor_get_element_size(&ptr, &length);
-          kid_context.s = ptr;
+          if (!b_2_unwrap_kid_context(ptr, length, &kid_context)) {
+            coap_log_warn("OSCORE: Appendix B.2 kid context cannot be decoded.\n");
+            coap_handle_event_lkd(session->context,
+                                  COAP_EVENT_OSCORE_DECODE_ERROR,
+                                  session);
+            goto error;
+          }
           cose_encrypt0_set_kid_context(cose, &kid_context);
         }
         if (ptr && !coap_binary_equal(osc_ctx->id_context, &cose->kid_context)) {
